@@ -33,7 +33,7 @@ func CloneV1(t types.Transaction) types.Transaction {
 	c := t
 	c.SiacoinInputs = append([]types.SiacoinInput(nil), t.SiacoinInputs...)
 	for i := range c.SiacoinInputs {
-		c.SiacoinInputs[i].UnlockConditions.PublicKeys = append([]types.UnlockKey(nil), t.SiacoinInputs[i].UnlockConditions.PublicKeys...)
+		c.SiacoinInputs[i].UnlockConditions = cloneUC(t.SiacoinInputs[i].UnlockConditions)
 	}
 	c.SiacoinOutputs = append([]types.SiacoinOutput(nil), t.SiacoinOutputs...)
 	c.FileContracts = append([]types.FileContract(nil), t.FileContracts...)
@@ -60,6 +60,17 @@ func CloneV1(t types.Transaction) types.Transaction {
 	c.Signatures = append([]types.TransactionSignature(nil), t.Signatures...)
 	for i := range c.Signatures {
 		c.Signatures[i].Signature = append([]byte(nil), t.Signatures[i].Signature...)
+		cf := &c.Signatures[i].CoveredFields
+		for _, p := range []*[]uint64{&cf.SiacoinInputs, &cf.SiacoinOutputs, &cf.FileContracts, &cf.FileContractRevisions, &cf.StorageProofs,
+			&cf.SiafundInputs, &cf.SiafundOutputs, &cf.MinerFees, &cf.ArbitraryData, &cf.Signatures} {
+			*p = append([]uint64(nil), *p...)
+		}
+	}
+	for i := range c.SiafundInputs {
+		c.SiafundInputs[i].UnlockConditions = cloneUC(t.SiafundInputs[i].UnlockConditions)
+	}
+	for i := range c.FileContractRevisions {
+		c.FileContractRevisions[i].UnlockConditions = cloneUC(t.FileContractRevisions[i].UnlockConditions)
 	}
 	return c
 }
@@ -735,4 +746,16 @@ func ClonePolicy(p types.SpendPolicy) types.SpendPolicy {
 		return types.SpendPolicy{Type: types.PolicyTypeUnlockConditions(uc)}
 	}
 	return p
+}
+
+func cloneUC(uc types.UnlockConditions) types.UnlockConditions {
+	keys := make([]types.UnlockKey, len(uc.PublicKeys))
+	for i, k := range uc.PublicKeys {
+		keys[i] = types.UnlockKey{Algorithm: k.Algorithm, Key: append([]byte(nil), k.Key...)}
+	}
+	if uc.PublicKeys == nil {
+		keys = nil
+	}
+	uc.PublicKeys = keys
+	return uc
 }
